@@ -506,9 +506,22 @@ func (d *cfgDynamic) withValue(err *error, opts *options, fn func(value)) {
 }
 
 func (d *cfgDynamic) getValue(opts *options) (value, error) {
-	return opts.parsed.cachedValue(d.id, func() (value, error) {
+	cycles := 0
+	if opts.cycles != nil {
+		cycles = *opts.cycles
+	}
+
+	v, err := opts.parsed.cachedValue(d.id, func() (value, error) {
 		return d.dyn.getValue(&d.cfgPrimitive, opts)
 	})
+
+	// A value computed while a cyclic reference was cut off (and replaced by a
+	// default or by a resolver) depends on where the cycle was entered. It
+	// must not be reused when the setting is read from another place.
+	if opts.cycles != nil && *opts.cycles != cycles {
+		delete(opts.parsed, string(d.id))
+	}
+	return v, err
 }
 
 func (d cfgDynamic) canCache() bool {
